@@ -117,7 +117,7 @@ pub const EXTREME: &[&str] = &[
     "math.div(1,0)", "math.div(-1,0)", "math.div(0,0)", "math.$max-number", "math.$min-number", "math.$epsilon",
     "1px", "0px", "-1px", "1.5px", "1e19px", "math.div(1px,0)", "math.div(0px,0)", "1%", "100%", "50%", "-50%", "150%", "1deg", "360deg", "-720deg", "1e10deg", "1turn", "1rad", "1s", "1ms", "1em", "1in", "1x", "1px*1px", "math.div(1,1px)", "math.div(1px*1em,1s)", "1px*1px*1px*1px",
     "\"\"", "''", "\"a\"", "a", "\"\\\\\"", "\"\\a\"", "\"é\"", "\"😀\"", "\"a b\"", "\"1\"", "\"#{1}\"", "unquote(\"\")", "unquote(\"a b\")", "unquote(\"\\\\\")", "\"abcdefghij\"", "-a", "--a", "a\\ b",
-    "()", "[]", "(1,)", "[1]", "(1 2)", "(1, 2)", "[1, 2]", "(1 (2 3) ())", "((), ())", "list.slash(1, 2)", "(a: 1)", "(a: 1, b: 2)", "(1: 2)", "((): ())", "(a: (b: (c: d)))", "map.merge((), ())", "(null,)", "(null null)",
+    "()", "[]", "(1,)", "[1]", "(1 2)", "(1, 2)", "[1, 2]", "(1 (2 3) ())", "((), ())", "list.slash(1, 2)", "(a: 1)", "(a: 1, b: 2)", "(1: 2)", "((): ())", "(a: (b: (c: d)))", "map.merge((), ())", "(null,)", "(null null)", "list.join((), (), slash)", "list.join((), (), $separator: slash)", "list.join((), (), comma)", "list.join((), 1, slash)", "list.join([], (), $bracketed: true)", "list.slash(1, 2, 3)", "list.slash((), ())", "list.join((), (), space)", "list.append((), (), slash)",
     "red", "#000", "#fff", "#abcd", "transparent", "rgba(0,0,0,0)", "hsl(0, 0%, 0%)", "hsl(math.div(0,0), 50%, 50%)", "hsl(0, math.div(0,0), 50%)", "hsl(0, 50%, math.div(1,0))", "rgb(math.div(0,0), 0, 0)", "rgba(1, 2, 3, math.div(0,0))", "hwb(math.div(0,0) 10% 10%)", "hwb(0 60% 60%)", "hsl(1e20, 100%, 50%)", "rgb(1e20, -1e20, 0)", "hsl(0, 200%, 200%)", "hsl(0, -5%, -5%)", "lighten(red, 100%)",
     "true", "false", "null", "&", "get-function(\"red\")", "meta.get-function(\"div\", $module: \"math\")", "get-function(\"f\")", "$args", "$a", "$undefined", "var(--x)", "calc(1px + 1%)", "calc(1px + var(--x))", "calc(infinity * 1px)", "calc(NaN)", "1 + 1", "a + b", "1/2", "(1/2)", "1 2 3...", "$kw...", "!important",
 ];
